@@ -241,12 +241,17 @@ def judge_extend(ctx, start, step, n, a, b, lc, rc, with_attr, two_d, arr=None, 
 
 
 # -------------------------------------------------------------- width family
-def judge_width(ctx, start, step, n, width, position, with_attr, fn, two_d):
+def judge_width(ctx, start, step, n, width, position, with_attr, fn, two_d, no_coord=False):
     from soundevent.arrays import operations as O
 
     arr = _mk(start, step, n, with_attr, two_d)
+    if no_coord:
+        # the dimension has no coordinate of its own (the arrays of the functions' docstring examples; the frame axis of
+        # a feature matrix): it is implicitly indexed 0, 1, 2, ...
+        arr = arr.drop_vars("time")
+        start, step = 0.0, 1.0
     coords = np.asarray(arr.time.data)
-    spec = {"kind": "width", "start": start, "step": step, "n": n, "width": width, "position": position, "attr": with_attr, "fn": fn, "two_d": two_d}
+    spec = {"kind": "width", "start": start, "step": step, "n": n, "width": width, "position": position, "attr": with_attr, "fn": fn, "two_d": two_d, "no_coord": no_coord}
     f = getattr(O, fn)
     kw = {"position": position}
     if fn != "crop_dim_width":
@@ -290,7 +295,7 @@ def judge_width(ctx, start, step, n, width, position, with_attr, fn, two_d):
             return
         left, right = block[0] - 1, n - (block[0] - 1) - width
         for v, cc in zip(block, gc):
-            if coords[v - 1] != cc:
+            if not no_coord and coords[v - 1] != cc:      # (a crop of a dimension without coordinate has none either)
                 ctx.violate("width:data_on_coordinate", "width:data_on_coordinate", observed={"value": v, "coord": float(cc)}, expected=float(coords[v - 1]), spec=spec)
                 return
     else:
@@ -315,6 +320,10 @@ STEPS = [1.0, 0.5, 0.1, 0.01, 1 / 3, 0.003, 1 / 44100]
 def run(ctx):
     install()
     rng = ctx.rng
+    from rv.props import concurrent_jobs
+
+    concurrent_jobs.run_some(ctx, "C17")        # the same calls from a thread pool (rv/core/threads.py)
+    ctx.must_monitors.append("concurrent_calls")
     ctx.rule = ("(axis start, step, length, requested range or width, position, closedness, step from attrs or estimated); "
                 "non-trivial = fractional step or width != current width; distinct = distinct case spec")
     ctx.assumptions += [
@@ -354,6 +363,16 @@ def run(ctx):
                                  {"kind": "width", "start": st, "step": stp, "n": n, "width": w, "position": pos, "attr": attr, "fn": fn},
                                  nontrivial=(stp != int(stp)) or w != n)
                         judge_width(ctx, st, stp, n, w, pos, attr, fn, two_d=(k % 7 == 0))
+    for n in [x for x in lens if x >= 2]:       # (one sample without a step attribute: no step to estimate, as for axes with coordinates)
+        for w in widths:
+            for pos in ("start", "center", "end"):
+                for fn in ("adjust_dim_width",) + (("crop_dim_width",) if 1 <= w < n else ("extend_dim_width",) if w > n else ()):
+                    k += 1
+                    if k % ctx.nshards != ctx.shard:
+                        continue
+                    ctx.case(("width", pos, "crop" if w < n else "same" if w == n else "extend", "no_coordinate", fn),
+                             {"kind": "width", "start": 0.0, "step": 1.0, "n": n, "width": w, "position": pos, "attr": False, "fn": fn, "no_coord": True, "two_d": k % 2 == 0}, nontrivial=w != n)
+                    judge_width(ctx, 0.0, 1.0, n, w, pos, False, fn, two_d=(k % 2 == 0), no_coord=True)
 
     # crop / extend
     for _ in range(ctx.scale(2500, 12000)):
@@ -588,4 +607,4 @@ def replay(ctx, w):
     elif k == "content":
         judge_content(ctx, s["op"], s["start"], s["step"], s["n"], s["content"], float("nan") if s["fill"] == "nan" else s["fill"], s["k_left"], s["k_right"], s["attr"], s["two_d"])
     elif k == "width":
-        judge_width(ctx, s["start"], s["step"], s["n"], s["width"], s["position"], s.get("attr", True), s.get("fn", "adjust_dim_width"), s.get("two_d", False))
+        judge_width(ctx, s["start"], s["step"], s["n"], s["width"], s["position"], s.get("attr", True), s.get("fn", "adjust_dim_width"), s.get("two_d", False), no_coord=s.get("no_coord", False))
